@@ -12,6 +12,9 @@ Round 3: Nelder-Mead publishes its simplex only with row 0 replaced by its
 constrained image after the last reordering (path-based).
 Round 4: tools.unpair hands the caller's bounds on without a numeric cast (None
 stays None).
+Round 5 (hunt): the gate of wrap_bounds also fires for a NaN coordinate (order
+abstraction with an unordered value; repair 33d3ebf); out-of-box coordinates
+are re-drawn only to finite values (repair 39e0e9c).
 NOT decided: that the reported best lies in the box (runtime consequence of inf
 energies never winning a <), behaviour of impose_bounds/symbolic bounds on vectors.
 """
@@ -178,6 +181,20 @@ def the_gate(ctx):
                     okall = False
             ctx.check(okall, 'wrap_bounds.%s#gate' % d.name, 'gate %s is true for all %d orderings with x outside [lower, upper]' % (T.show(tt)[:60], rows),
                       'the gate predicate %s is false for an ordering with the coordinate outside [lower, upper]' % T.show(tt), outer, nd)
+            # a NaN coordinate is not inside any interval: the gate has to fire for it too (a predicate written as "below or above"
+            # is false for NaN, one written as "not (inside)" is true)
+            nan_ok = True
+            for rank in ordabs.weak_orderings([LO, HI]):
+                if rank[LO] > rank[HI]:
+                    continue
+                rank = dict(rank)
+                rank[X] = ordabs.NAN
+                ctx.stats['orderings_enumerated'] += 1
+                if not ordabs.evaluate(tt, rank):
+                    nan_ok = False
+            ctx.check(nan_ok, 'wrap_bounds.%s#gate-nan' % d.name, 'the gate also fires for a NaN coordinate',
+                      'the gate predicate %s is false for a NaN coordinate (both comparisons are false): a candidate that a constraint or an infinite strict range turned into NaN is handed to the user\'s cost '
+                      'although NaN lies in no interval' % T.show(tt), outer, nd)
 
 
 class _Prefix(object):
